@@ -14,7 +14,7 @@ import (
 func init() {
 	register(&propDef{
 		id: "C11", level: "other", perCfg: false,
-		explain: "Necessary structural conditions of C11, decided for all paths of the client's Send and of the receive function it returns (found by role: the function in package varlink that marshals a call struct and writes it on a Connection's wrapper; its closure that reads a frame). N1 forbidden flag pairs: with both tests of (More,Oneway) resp. (More,Upgrade) taken true, neither json.Marshal nor the write nor a success return is reachable. N2 flag fidelity: each bool member of the marshalled call struct with JSON key more/oneway/upgrade is exactly `flags & <exported constant of that name> != 0`; the four flag constants are distinct single bits; method and parameters members are the arguments unchanged. N3 EOF mapping: on the write path and on the read path the edge `err == io.EOF` returns io.ErrUnexpectedEOF, other errors are returned unchanged, and the decode resp. the success return require err == nil. N4: the frame is decoded into a fresh zero value, a decode error is returned at once; error != \"\" returns DispatchError() of Error{Name: error, Parameters: raw parameters}; otherwise the success returns. N5: exactly one frame read per receive call. N7: the shared frame-read primitive reads each frame with one direct bufio.Reader.ReadBytes in its helper (no second read path) and returns it unchanged (re-evaluated from C02.F2). N6: panic census over the client functions. N9 (= C12.X3) the Error value handed to the typed-error conversion has Name and Parameters set on every path.",
+		explain: "Necessary structural conditions of C11, decided for all paths of the client's Send and of the receive function it returns (found by role: the function in package varlink that marshals a call struct and writes it on a Connection's wrapper; its closure that reads a frame). N1 forbidden flag pairs: with both tests of (More,Oneway) resp. (More,Upgrade) taken true, neither json.Marshal nor the write nor a success return is reachable. N2 flag fidelity: each bool member of the marshalled call struct with JSON key more/oneway/upgrade is exactly `flags & <exported constant of that name> != 0`; the four flag constants are distinct single bits; method and parameters members are the arguments unchanged. N3 EOF mapping: on the write path and on the read path the edge `err == io.EOF` returns io.ErrUnexpectedEOF, other errors are returned unchanged, and the decode resp. the success return require err == nil. N4: the frame is decoded into a fresh zero value, a decode error is returned at once; error != \"\" returns DispatchError() of Error{Name: error, Parameters: raw parameters}; otherwise the success returns. N5: exactly one frame read per receive call. N7: the shared frame-read primitive reads each frame with one direct bufio.Reader.ReadBytes in its helper (no second read path) and returns it unchanged (re-evaluated from C02.F2). N6: panic census over the client functions. N9 (= C12.X3) the Error value handed to the typed-error conversion has Name and Parameters set on every path. N1 also converse: the flag combinations the protocol allows are not refused. N2 also: the convenience wrappers pass exactly the flag constants their name says. N4 also: every frame read reaches the decoder unchanged. N8 (= C12.X2). N10 error discipline of the client side (engine errdisc).",
 		notDec:  "Behaviour of encoding/json on wrong-shape documents (a frame that is not an object of the reply's shape fails to decode - library contract); the discarded decode error of reply parameters into the caller's value (outside the statement).",
 		trusted: []string{"bufio.Reader.ReadBytes returns io.EOF (with the partial data) iff the stream ends before the delimiter", "encoding/json.Unmarshal fails for a value that is not an object or null when decoding into a struct"},
 		run:     runC11,
